@@ -62,6 +62,18 @@ def check_thresholds(ctx: Ctx):
     data = f"{field}.data"
     from ..astutil import value_cases, mini_eval
 
+    # ---- no result is returned without the binary image: a shortcut ("the threshold is above every value", "the image is constant")
+    # compares the field with something else than `data > threshold` and differs from it for special values (NaN cells, ties)
+    loc_calls = [x for x in fv.calls() if (fv.callee(x) or "").endswith("locate_droplets_in_mask")]
+    if loc_calls:
+        si0 = stmt_index(fv)
+        st_loc = si0.statement(loc_calls[0])
+        early = [r_.stmt for r_ in fv.return_nodes() if isinstance(r_.stmt, ast.Return) and not fv.dominates(st_loc, r_.stmt)]
+        ctx.decide(not early, "GUARDSHAPE", f"{site}:no-shortcut", (fi, early[0]) if early else fi, "every result is derived from the binary image `data > threshold`",
+                   f"`{U(early[0])[:60] if early else ''}` returns before the binary image is formed (guards: {[U(t)[:60] for t, _p in si0.effective_guards(early[0])] if early else ''}): the "
+                   "result is then decided by another comparison with the field's values than `data > threshold` — e.g. `threshold < data.max()` is False as soon as one cell is NaN, "
+                   "although the remaining cells still exceed the threshold")
+
     # the mask comparison names the effective threshold; its value per requested rule is read off the paths
     # that reach the comparison (truth table over the five kinds of request), whatever the dispatch is spelled like
     masks = [c for c in fv.calls() if (fv.callee(c) or "").endswith("ScalarField") and len(c.args) >= 2]
@@ -452,6 +464,34 @@ def check_otsu(ctx: Ctx):
             okr = var is not None and isinstance(env.get(var), Ori) and env[var].cum == "mixed"
     ctx.decide(okr, "THRESH", site + ":result", (fi, rets[0]) if rets else fi, "returns the bin centre at the arg-max of the between-class variance",
                "the result is not the bin centre at the arg-max of the between-class variance array")
+    # the maximised array is the between-class variance w1·w2·(m1 − m2)² in exact normal form over its four sliced operands: another
+    # function of the same operands (|m1 − m2|, the fourth power, w1 + w2) has its maximum at another bin for skewed histograms
+    try:
+        vname = var if (len(rets) == 1 and rets[0].value is not None) else None
+    except NameError:
+        vname = None
+    vdef = [s_ for s_ in fv.statements() if isinstance(s_, ast.Assign) and isinstance(s_.targets[0], ast.Name) and s_.targets[0].id == vname] if vname else []
+    if len(vdef) == 1:
+        vx = fv.expand(vdef[0].value, vdef[0], stop=tuple(env), allow_mutated=True)
+        subs = []
+        for x_ in ast.walk(vx):
+            if isinstance(x_, ast.Subscript) and isinstance(x_.value, ast.Name) and U(x_) not in [U(y_) for y_ in subs]:
+                subs.append(x_)
+        diff = [b_ for b_ in ast.walk(vx) if isinstance(b_, ast.BinOp) and isinstance(b_.op, ast.Sub) and isinstance(b_.left, ast.Subscript) and isinstance(b_.right, ast.Subscript)]
+        if len(subs) == 4 and len(diff) >= 1:
+            c_, d_ = U(diff[0].left), U(diff[0].right)
+            ab = [U(x_) for x_ in subs if U(x_) not in (c_, d_)]
+            if len(ab) == 2:
+                okv = False
+                try:
+                    got = Converter().conv(vx)
+                    want = Expr.atom(ab[0]) * Expr.atom(ab[1]) * (Expr.atom(c_) - Expr.atom(d_)).power(2)
+                    okv = got == want
+                except NotAlgebraic:
+                    okv = False
+                ctx.decide(okv, "THRESH", site + ":variance", (fi, vdef[0]), "the maximised quantity is w1·w2·(m1 − m2)² (between-class variance)",
+                           f"`{U(vdef[0])[:90]}` is not weight1·weight2·(mean1 − mean2)²: its arg-max is another bin for a skewed histogram (a small bright droplet over a broad "
+                           "background), so the 'otsu' threshold is not the one that maximises the between-class variance and the detected droplets differ")
 
 
 def check(ctx: Ctx):
@@ -479,11 +519,14 @@ def check(ctx: Ctx):
     _purity.check_stateless(sub_p, ["droplets.image_analysis.locate_droplets"])
     ctx.findings.extend(f for f in sub_p.findings if f.rule == "STATELESS" and (f.verdict == "violated" or f.site == "droplets.image_analysis.locate_droplets"))
     ctx.functions |= sub_p.functions
+    from ..rules import support as _sup_r11
+
+    _sup_r11.check_params_not_rebound(ctx, "droplets.image_analysis.refine_droplets", ("phase_field", "candidates", "kwargs"))
     ctx.expect("STATELESS", 1)
     ctx.expect("LATEBIND", 1)
     ctx.expect("THRESH", 9)
     ctx.expect("EXHAUST", 3)
-    ctx.expect("GUARDSHAPE", 1)
+    ctx.expect("GUARDSHAPE", 2)
     ctx.expect("SLICE", 1)
     ctx.expect("FILTER", 2)
     ctx.expect("REMOVE", 1)
